@@ -6,6 +6,15 @@
              value = N <int> | S <hex|-> | L <n> value*
    chunks  = <parent>:<flags>:<hexname.hexname...> joined by ','   (empty path = configFile itself;
              flags: 'c' = also evaluate "true" configClasses)
+   Histories (config values kept across loads) put two more kinds of item into the chunk list, evaluated in order:
+     L:<nnodes> node*                a further load between two scripts
+     K:<instr>;<instr>...            a script with effects; instr =
+          k <slot> <deriv> <path>    keep a config value: path = hexname.hexname... | -  ; deriv = P (the value of the path) |
+                                     S<i> (select i) | H<j> (configHierarchy select j) | I (inheritsFrom) | C<j> ("true" configClasses select j)
+          p <nnodes> node*           configparse__ of that text
+          o <slot> <path|~> <names|-> <mark>   observe the kept value (and, when a path is given, the value navigated afresh and == of the two)
+   A config value is a container id (ConfigDefs: "a config value holds a container id"): a kept value is that id, every operator
+   reads the host of the moment it is applied.
    Output mirrors harness/h_config.cpp:
      R \t <loads> \t <chunk>...      loads: ok:<codes> | UB:<fault> | HANG   chunk: <hex lines>:<codes> | TIMEOUT | UB:<fault> | SKIP | NORUN
    The printed lines are what SQF's `str` prints for the observation arrays of checks/C15.py. *)
@@ -65,11 +74,16 @@ let defects_of (s : string) : defects =
   { d_rebind_cycle = s.[0] = '1'; d_inherits_logical = s.[1] = '1'; d_hierarchy_shape = s.[2] = '1'; d_deleted_reopen = s.[3] = '1' }
 
 (* ---- one observation chunk (same order of evaluation as the SQF text of checks/C15.py) ---- *)
-let chunk (d : defects) (h : host) (flags : string) (path : z list list) : string =
-  let warn = ref [] in
-  let w level l = warn := !warn @ codes level l in
-  let (c, w0) = ok (op_path h (Some O) path) in
-  w 2 w0;
+type cid = nat option
+let hier_str (d : defects) (h : host) (c : cid) : string =
+  let nm cid = raw (ok (op_name h cid)) in
+  let (hi, _) = ok (op_hierarchy d h c) in
+  match hi with
+  | HNames l -> "[" ^ String.concat "," (List.map (fun s -> quote (raw s)) l) ^ "]"
+  | HConfigs l -> "[" ^ String.concat "," (List.map (fun e -> nm (Some e)) l) ^ "]"
+
+(* lines 1 and 2 of an observation; w collects the diagnostics *)
+let observe12 (d : defects) (h : host) (c : cid) (w : int -> z list -> unit) : string list =
   let nm cid = raw (ok (op_name h cid)) in
   let b f = let (v, ws) = ok (f h c) in w 2 ws; show_bool v in
   let isnull = (c = None) in
@@ -80,27 +94,109 @@ let chunk (d : defects) (h : host) (flags : string) (path : z list list) : strin
   let (ga, ws) = ok (op_getArray h c) in w 2 ws;
   let line1 = "[" ^ String.concat "," [l1_name; show_bool isnull; l1_class; l1_num; l1_text; l1_arr;
                                        string_of_int (int_of_z gn); quote (raw gt); show_val (VArr ga)] ^ "]" in
-  let lines = ref [line1] in
-  if not isnull then begin
+  if isnull then [line1] else begin
     let (cnt, _) = ok (op_count h c) in
     let n = int_of_nat cnt in
     let sel = List.init (n + 2) (fun k -> let i = k - 1 in
                  let (e, ws) = ok (op_select h c (z_of_int i)) in w 2 ws; nm e) in
     let (cn, _) = ok (op_configName h c) in
     let (inh, _) = ok (op_inheritsFrom d h c) in
-    let (hi, _) = ok (op_hierarchy d h c) in
-    let his = match hi with
-      | HNames l -> "[" ^ String.concat "," (List.map (fun s -> quote (raw s)) l) ^ "]"
-      | HConfigs l -> "[" ^ String.concat "," (List.map (fun e -> nm (Some e)) l) ^ "]" in
-    lines := !lines @ ["[" ^ String.concat "," [quote (raw cn); string_of_int n; nm inh; his;
-                                                 "[" ^ String.concat "," sel ^ "]"] ^ "]"];
-    if String.contains flags 'c' then begin
-      let (cl, _) = ok (op_configClasses h c) in
-      lines := !lines @ ["[" ^ String.concat "," (List.map (fun e -> nm (Some e)) cl) ^ "]"]
-    end
+    let his = hier_str d h c in
+    [line1; "[" ^ String.concat "," [quote (raw cn); string_of_int n; nm inh; his; "[" ^ String.concat "," sel ^ "]"] ^ "]"]
+  end
+
+let finish_chunk (lines : string list) (warn : string list) : string =
+  let text = String.concat "\n" lines in
+  hex_of_bytes (List.init (String.length text) (fun i -> Char.code text.[i])) ^ ":" ^ show_codes warn
+
+let chunk (d : defects) (h : host) (flags : string) (path : z list list) : string =
+  let warn = ref [] in
+  let w level l = warn := !warn @ codes level l in
+  let (c, w0) = ok (op_path h (Some O) path) in
+  w 2 w0;
+  let nm cid = raw (ok (op_name h cid)) in
+  let lines = ref (observe12 d h c w) in
+  if c <> None && String.contains flags 'c' then begin
+    let (cl, _) = ok (op_configClasses h c) in
+    lines := !lines @ ["[" ^ String.concat "," (List.map (fun e -> nm (Some e)) cl) ^ "]"]
   end;
-  let text = String.concat "\n" !lines in
-  hex_of_bytes (List.init (String.length text) (fun i -> Char.code text.[i])) ^ ":" ^ show_codes !warn
+  finish_chunk !lines !warn
+
+(* ---- histories: observation of a kept value (the _obs function of checks/C15.py): lines 1 and 2 as above, then the configHierarchy
+   of every class reached by repeating inheritsFrom (at most 40), then the configHierarchy of value >> name for every name ---- *)
+let observe_held (d : defects) (h : host) (c : cid) (names : z list list) (w : int -> z list -> unit) : string list =
+  let l12 = observe12 d h c w in
+  if c = None then l12 else begin
+    let chain = ref [] in
+    let b = ref (fst (ok (op_inheritsFrom d h c))) in
+    let k = ref 0 in
+    while !b <> None && !k < 40 do
+      chain := !chain @ [hier_str d h !b];
+      b := fst (ok (op_inheritsFrom d h !b));
+      incr k
+    done;
+    let looks = List.map (fun t -> let (e, ws) = ok (op_lookup h c t) in w 2 ws;
+                            if e = None then "[]" else hier_str d h e) names in
+    l12 @ ["[" ^ String.concat "," !chain ^ "]"; "[" ^ String.concat "," looks ^ "]"]
+  end
+
+let path_of_string (s : string) : z list list =
+  if s = "-" || s = "" then [] else List.map name_of_hex (String.split_on_char '.' s)
+
+(* one script with effects: the host and the kept values change *)
+let script (d : defects) (h : host ref) (slots : (int, cid) Hashtbl.t) (prog : string) : string =
+  let warn = ref [] in
+  let w level l = warn := !warn @ codes level l in
+  let lines = ref [] in
+  let nth_opt l j = if j < 0 then None else List.nth_opt l j in
+  List.iter (fun ins ->
+    let ins = String.trim ins in
+    if ins <> "" then begin
+      let sp = String.index ins ' ' in
+      let op = String.sub ins 0 sp and rest = String.sub ins (sp + 1) (String.length ins - sp - 1) in
+      match op with
+      | "p" ->
+        (match parse_loads ("1 " ^ rest) with
+         | [l] -> (match load d (!h, []) l with
+                   | Ok (h1, lg) -> h := h1; w 2 lg
+                   | UB wv -> raise (Stop ("UB:" ^ fault wv))
+                   | OutOfFuel -> raise (Stop "TIMEOUT"))
+         | _ -> failwith "p")
+      | "k" ->
+        (match String.split_on_char ' ' rest with
+         | [slot; deriv; path] ->
+           let (c, w0) = ok (op_path !h (Some O) (path_of_string path)) in
+           w 2 w0;
+           let arg () = int_of_string (String.sub deriv 1 (String.length deriv - 1)) in
+           let v =
+             if deriv = "P" || c = None then c
+             else match deriv.[0] with
+               | 'S' -> let (e, ws) = ok (op_select !h c (z_of_int (arg ()))) in w 2 ws; e
+               | 'I' -> fst (ok (op_inheritsFrom d !h c))
+               | 'H' -> (match fst (ok (op_hierarchy d !h c)) with
+                         | HConfigs l -> (match nth_opt l (arg ()) with Some e -> Some e | None -> None)
+                         | HNames _ -> None)
+               | 'C' -> (match nth_opt (fst (ok (op_configClasses !h c))) (arg ()) with Some e -> Some e | None -> None)
+               | _ -> failwith "deriv" in
+           Hashtbl.replace slots (int_of_string slot) v
+         | _ -> failwith "k")
+      | "o" ->
+        (match String.split_on_char ' ' rest with
+         | [slot; fresh; names; mark] ->
+           let v = (try Hashtbl.find slots (int_of_string slot) with Not_found -> failwith "slot") in
+           let ns = path_of_string names in
+           lines := !lines @ ["[\"#\"," ^ mark ^ "]"];
+           lines := !lines @ observe_held d !h v ns w;
+           if fresh <> "~" then begin
+             let (f, w0) = ok (op_path !h (Some O) (path_of_string fresh)) in
+             w 2 w0;
+             lines := !lines @ ["[\"=\"," ^ show_bool (cid_eqb v f) ^ "]"];
+             lines := !lines @ observe_held d !h f ns w
+           end
+         | _ -> failwith "o")
+      | _ -> failwith ("instr " ^ op)
+    end) (String.split_on_char ';' prog);
+  finish_chunk !lines !warn
 
 let () = iter_lines (fun line ->
   match split_tab line with
@@ -108,10 +204,13 @@ let () = iter_lines (fun line ->
     let d = defects_of ds in
     let lds = parse_loads ls in
     let chunks = if cs = "" then [] else List.map (fun c ->
-        match String.split_on_char ':' c with
-        | [p; fl; path] -> (int_of_string p, fl, if path = "" then [] else List.map name_of_hex (String.split_on_char '.' path))
+        if String.length c > 2 && c.[1] = ':' && (c.[0] = 'L' || c.[0] = 'K')
+        then (-1, String.make 1 c.[0] ^ String.sub c 2 (String.length c - 2), [])        (* item with effects: kind + text *)
+        else match String.split_on_char ':' c with
+        | [p; fl; path] -> (int_of_string p, "C" ^ fl, if path = "" then [] else List.map name_of_hex (String.split_on_char '.' path))
         | _ -> failwith "chunk") (String.split_on_char ',' cs) in
     let h = ref init_host in
+    let slots : (int, cid) Hashtbl.t = Hashtbl.create 16 in
     let dead = ref false in
     let lres = ref [] in
     List.iter (fun l ->
@@ -125,6 +224,17 @@ let () = iter_lines (fun line ->
     let out = List.mapi (fun i (p, fl, path) ->
         if !dead then "NORUN"
         else if p >= 0 && p < i && hung.(p) then (hung.(i) <- true; "SKIP")
-        else (try chunk d !h fl path with Stop s -> (if s = "TIMEOUT" then hung.(i) <- true); s)) chunks in
+        else
+          let body = String.sub fl 1 (String.length fl - 1) in
+          match fl.[0] with
+          | 'L' ->
+            (match parse_loads ("1 " ^ body) with
+             | [l] -> (match load d (!h, []) l with
+                       | Ok (h1, lg) -> h := h1; "ok:" ^ show_codes (codes 2 lg)
+                       | UB wv -> dead := true; "UB:" ^ fault wv
+                       | OutOfFuel -> dead := true; "HANG")
+             | _ -> failwith "L")
+          | 'K' -> (try script d h slots body with Stop s -> dead := true; s)
+          | _ -> (try chunk d !h body path with Stop s -> (if s = "TIMEOUT" then hung.(i) <- true); s)) chunks in
     String.concat "\t" (["R"; String.concat "," !lres] @ out)
   | _ -> "BADLINE")
